@@ -320,3 +320,8 @@ CHECKS["C08"]["text"] += (" FileStore::finalize_snapshot_installation is under c
 CHECKS["C01"]["text"] += (" Compaction dispatch is under contract as well: StateApplyManager::do_build_snapshot (effect log + reply log: header = (compaction index, term of that entry, membership as reported), all seven components write into THAT writer, "
                           "flush, catalogue entry (id, same index) — in this order) and RaftSnapshotManager::{get_next_id, complete_snapshot, save_snapshot_to_index, load_snapshot_header} (the completed snapshot is the last catalogue entry, "
                           "the catalogue goes to the index manager in one message).")
+
+CHECKS["C08"]["text"] += (" FileStore::create_snapshot is under contract: ONE NewSnapshotForLoad message, and the file handed to the Raft core is NEW and empty whatever a file of that name held before — this obligation failed on the tree as found "
+                          "(finding S26: no truncation, the tail of a longer leftover file was loaded into the follower's state machine; repaired by 80bfefa); the install stand-in has a leftover-file probe.")
+CHECKS["C08"]["note"] += " A-REPLYSHAPE: the snapshot manager answers NewSnapshotForLoad with NewSnapshotForLoad(path, id) or an error (its handler is not under contract)."
+CHECKS["C01"]["text"] += " FileStore::do_log_compaction (storage boundary of a compaction) is under contract."
